@@ -4,12 +4,14 @@
   are proved equal to the tables of DESIGN.md section 3 (Spec/Ops.lean), for every BINARY
   operator and all operand values; the error conditions and the short-circuit behaviour are
   stated outright.
-  Not covered by a theorem here: the unary operators (`!`, prefix `-` `+`, `++` `--`); `&&` / `||`
-  when the right operand IS evaluated (result `truthy` of it as a boolean); and that `evalBinary`
-  applies `binaryOp` to the values of its two operands (only `&&`, `||`, `is` are stated at the
-  level of `evalBinary`).
+  The last two sections (added later) state that the evaluator applies these tables: `evalBinary`
+  hands the values of its two operands to `binaryOp` (every operator tag is covered by exactly one
+  of the evaluator-level theorems, `binary_tag_exhaustive`), and the unary operators (`!`, prefix
+  `-` `+`, `++` `--`) with their value-level table and the evaluator-level statement.
 -/
 import Jqawk.Spec.Ops
+import Jqawk.Lemmas.BlameSites
+import Jqawk.Lemmas.ParserOps
 
 namespace Jqawk.C05
 open Jqawk
@@ -176,5 +178,483 @@ example : (match evalExpr Program.empty 1 (.lit ⟨.false_, 0, []⟩) default,
       evalExpr Program.empty 1 (.lit ⟨.true_, 0, []⟩) default with
     | .ok c1 s1, .ok c2 s2 => !(s1.heap.get c1).truthy && (s2.heap.get c2).truthy
     | _, _ => false) = true := by decide +kernel
+
+
+/-! ### the evaluator applies the binary operator table (§3.3)
+
+  For a node `l op r` evaluated by `evalBinary prog (n + 1) l r op` from state `s`: the left
+  operand is evaluated first (from `s`, giving cell `cl` and state `s1`), the right operand next
+  (from `s1`, giving `cr` and `s2`), and the operator is applied to the VALUES the two cells hold
+  in `s2` (so a left operand that is a variable sees side effects of the right operand).
+  `evalExpr prog (n + 2) (.binary l r op) = evalBinary prog (n + 1) l r op`
+  (`BlameSites.evalExpr_binary`), so all statements are statements about the node. -/
+
+open BlameSites
+
+/-- what `newCell` does: the new cell's id is the old number of cells, it holds `v`, and nothing
+    else in the state changes (one value pushed to `heap.cells`) -/
+theorem newCell_spec (v : Val) (s : St) :
+    newCell v s =
+      .ok s.heap.cells.size { s with heap := { s.heap with cells := s.heap.cells.push v } } := rfl
+
+/-- … read back: the new cell holds `v`, every old cell keeps its value -/
+theorem newCell_get (v : Val) (s : St) :
+    ∃ s', newCell v s = .ok s.heap.cells.size s' ∧ s'.heap.get s.heap.cells.size = v ∧
+      (∀ c, c < s.heap.cells.size → s'.heap.get c = s.heap.get c) ∧
+      s'.heap.arrs = s.heap.arrs ∧ s'.heap.objs = s.heap.objs ∧ s'.frames = s.frames ∧
+      s'.out = s.out ∧ s'.faults = s.faults :=
+  ⟨_, rfl, Heap.get_push_new _ _, fun c hc => Heap.get_push_old _ _ c hc, rfl, rfl, rfl, rfl, rfl⟩
+
+/-- what raising a runtime error does: the outcome is `Err.runtime pos msg`, and the state is
+    unchanged except for the two ghost fields -/
+theorem throwRt_spec (pos : Nat) (msg : String) (s : St) :
+    (throwRt pos msg s : Res CellId) =
+      .err (.runtime pos msg) { s with faults := s.faults + 1, faultOut := s.out.length } := rfl
+
+/-- C05, §3.3 + §3.5/3.6, code-shaped: **for each of the 13 operators `== != < <= > >=`,
+    `+ - * / %`, `~ !~`, `evalBinary` returns exactly what `binaryOp` prescribes for the values
+    of the two operand cells**: a fresh cell holding the value (the only state change,
+    `newCell_spec`), or a runtime error raised in `s2` — at the right operand's token for the two
+    regex errors, at the LEFT operand's token for "cannot compare", at the operator token for
+    "divide by zero" (`binErrPos`) — or the model declines (regex outside the modelled subset).
+    The state threading `s → s1 → s2` shows the left operand is evaluated before the right. -/
+theorem evalBinary_applies_binaryOp (n : Nat) (l r : Expr) (op : Token)
+    (hop : isCompareOp op.tag = true ∨ isArithOp op.tag = true ∨ op.tag = .tilde ∨ op.tag = .bangTilde)
+    (s s1 s2 : St) (cl cr : CellId)
+    (hl : evalExpr prog n l s = .ok cl s1) (hr : evalExpr prog n r s1 = .ok cr s2) :
+    evalBinary prog (n + 1) l r op s =
+      (match binaryOp op.tag (s2.heap.get cl) (s2.heap.get cr) with
+       | .val v => newCell v s2
+       | .err atRight m =>
+         throwRt (if atRight then r.token.pos
+                  else if isCompareOp op.tag then l.token.pos else op.pos) m s2
+       | .unmodelled why => throwUnmodelled why s2) := by
+  refine evalBinary_table prog n l r op ?_ s s1 s2 cl cr hl hr
+  rcases hop with h | h | h | h <;> simp [isTableOp, h]
+
+/-- the outcome of a table operator in terms of the documented result (Spec/Ops.lean) -/
+def applyResult (l r : Expr) (op : Token) (s2 : St) : Spec.Result → Res CellId
+  | .value v => newCell v s2
+  | .divideByZero => throwRt op.pos "divide by zero" s2
+  | .cannotCompare => throwRt l.token.pos "cannot compare" s2
+  | .notAPattern =>
+    throwRt r.token.pos "a regex or a string must appear on the right hand side of ~" s2
+  | .invalidPattern => throwRt r.token.pos "invalid regex" s2
+  | .unmodelled => throwUnmodelled "regex outside the modelled subset" s2
+
+theorem compareOp_range (op : Tag) (a b : Val) :
+    (∃ v, Spec.compareOp op a b = .value v) ∨ Spec.compareOp op a b = .cannotCompare := by
+  unfold Spec.compareOp
+  split
+  · exact .inl ⟨_, rfl⟩
+  · split
+    · exact .inr rfl
+    · exact .inl ⟨_, rfl⟩
+
+theorem arithOp_range (op : Tag) (a b : Val) :
+    (∃ v, Spec.arithOp op a b = .value v) ∨ Spec.arithOp op a b = .divideByZero := by
+  unfold Spec.arithOp
+  split
+  · split <;> exact .inl ⟨_, rfl⟩
+  · exact .inl ⟨_, rfl⟩
+  · exact .inl ⟨_, rfl⟩
+  · split
+    · exact .inr rfl
+    · exact .inl ⟨_, rfl⟩
+  · dsimp only
+    split
+    · exact .inr rfl
+    · exact .inl ⟨_, rfl⟩
+
+theorem matchOp_range (op : Tag) (a b : Val) :
+    (∃ v, Spec.matchOp op a b = .value v) ∨ Spec.matchOp op a b = .notAPattern ∨
+    Spec.matchOp op a b = .invalidPattern ∨ Spec.matchOp op a b = .unmodelled := by
+  unfold Spec.matchOp
+  split
+  · split
+    · exact .inr (.inr (.inl rfl))
+    · exact .inr (.inr (.inr rfl))
+    · exact .inl ⟨_, rfl⟩
+  · split
+    · exact .inr (.inr (.inl rfl))
+    · exact .inr (.inr (.inr rfl))
+    · exact .inl ⟨_, rfl⟩
+  · exact .inr (.inl rfl)
+
+/-- C05, §3.5 at evaluator level: the six comparisons yield the documented boolean in a fresh
+    cell, or "cannot compare" at the left operand's token -/
+theorem evalBinary_compare (n : Nat) (l r : Expr) (op : Token) (hop : isCompareOp op.tag = true)
+    (s s1 s2 : St) (cl cr : CellId)
+    (hl : evalExpr prog n l s = .ok cl s1) (hr : evalExpr prog n r s1 = .ok cr s2) :
+    evalBinary prog (n + 1) l r op s =
+      applyResult l r op s2 (Spec.compareOp op.tag (s2.heap.get cl) (s2.heap.get cr)) := by
+  rw [evalBinary_applies_binaryOp prog n l r op (.inl hop) s s1 s2 cl cr hl hr,
+    binaryOp_compare op.tag hop]
+  rcases compareOp_range op.tag (s2.heap.get cl) (s2.heap.get cr) with ⟨v, h⟩ | h <;>
+    simp [h, toBinOut, applyResult, hop]
+
+/-- C05, §3.6 at evaluator level: `+ - * / %` yield the documented value in a fresh cell, or
+    "divide by zero" at the operator token -/
+theorem evalBinary_arith (n : Nat) (l r : Expr) (op : Token) (hop : isArithOp op.tag = true)
+    (s s1 s2 : St) (cl cr : CellId)
+    (hl : evalExpr prog n l s = .ok cl s1) (hr : evalExpr prog n r s1 = .ok cr s2) :
+    evalBinary prog (n + 1) l r op s =
+      applyResult l r op s2 (Spec.arithOp op.tag (s2.heap.get cl) (s2.heap.get cr)) := by
+  have hn : isCompareOp op.tag = false := by
+    simp only [isArithOp] at hop; cases h : op.tag <;> simp_all [isCompareOp]
+  rw [evalBinary_applies_binaryOp prog n l r op (.inr (.inl hop)) s s1 s2 cl cr hl hr,
+    binaryOp_arith op.tag hop]
+  rcases arithOp_range op.tag (s2.heap.get cl) (s2.heap.get cr) with ⟨v, h⟩ | h <;>
+    simp [h, toBinOut, applyResult, hn]
+
+/-- C05, §3.6 at evaluator level: `~` and `!~` yield the documented boolean in a fresh cell, or
+    one of the two pattern errors at the RIGHT operand's token, or the model declines -/
+theorem evalBinary_regex (n : Nat) (l r : Expr) (op : Token)
+    (hop : op.tag = .tilde ∨ op.tag = .bangTilde)
+    (s s1 s2 : St) (cl cr : CellId)
+    (hl : evalExpr prog n l s = .ok cl s1) (hr : evalExpr prog n r s1 = .ok cr s2) :
+    evalBinary prog (n + 1) l r op s =
+      applyResult l r op s2 (Spec.matchOp op.tag (s2.heap.get cl) (s2.heap.get cr)) := by
+  rw [evalBinary_applies_binaryOp prog n l r op (.inr (.inr hop)) s s1 s2 cl cr hl hr,
+    binaryOp_match op.tag hop]
+  rcases matchOp_range op.tag (s2.heap.get cl) (s2.heap.get cr) with ⟨v, h⟩ | h | h | h <;>
+    simp [h, toBinOut, applyResult]
+
+/-- C05, §3.4: `a && b` with `a` truthy evaluates `b` (after `a`) and yields `truthy(b)` as a
+    boolean in a fresh cell -/
+theorem and_rhs_evaluated (n : Nat) (l r : Expr) (op : Token) (hop : op.tag = .ampAmp)
+    (s s1 s2 : St) (cl cr : CellId)
+    (hl : evalExpr prog n l s = .ok cl s1) (ht : (s1.heap.get cl).truthy = true)
+    (hr : evalExpr prog n r s1 = .ok cr s2) :
+    evalBinary prog (n + 1) l r op s = newCell (.bool (s2.heap.get cr).truthy) s2 :=
+  evalBinary_and_rhs prog n l r op hop s s1 s2 cl cr hl ht hr
+
+/-- C05, §3.4: `a || b` with `a` falsy evaluates `b` (after `a`) and yields `truthy(b)` -/
+theorem or_rhs_evaluated (n : Nat) (l r : Expr) (op : Token) (hop : op.tag = .pipePipe)
+    (s s1 s2 : St) (cl cr : CellId)
+    (hl : evalExpr prog n l s = .ok cl s1) (ht : (s1.heap.get cl).truthy = false)
+    (hr : evalExpr prog n r s1 = .ok cr s2) :
+    evalBinary prog (n + 1) l r op s = newCell (.bool (s2.heap.get cr).truthy) s2 :=
+  evalBinary_or_rhs prog n l r op hop s s1 s2 cl cr hl ht hr
+
+/-- `is` with anything but an identifier node on the right (the parser never builds this:
+    `Expr.nodeOK` / `parse_wf` of Lemmas/ParserWF.lean) is a
+    runtime error at the right operand's token; the right operand is not evaluated -/
+theorem is_not_type_name (n : Nat) (l r : Expr) (op : Token) (hop : op.tag = .is)
+    (hr : ∀ t, r ≠ .ident t) (s s1 : St) (cl : CellId) (hl : evalExpr prog n l s = .ok cl s1) :
+    evalBinary prog (n + 1) l r op s = throwRt r.token.pos "expected a type name" s1 :=
+  evalBinary_is_other prog n l r op hop hr s s1 cl hl
+
+/-- §3.7: `a.b` and `a[b]` evaluate both operands in order and take the member step on the two
+    cells (what that yields is C09's subject) -/
+theorem member_applies (n : Nat) (l r : Expr) (op : Token)
+    (hop : op.tag = .dot ∨ op.tag = .lsquare) (s s1 s2 : St) (cl cr : CellId)
+    (hl : evalExpr prog n l s = .ok cl s1) (hr : evalExpr prog n r s1 = .ok cr s2) :
+    evalBinary prog (n + 1) l r op s = memberStep l.token.pos cl cr s2 :=
+  evalBinary_member prog n l r op hop s s1 s2 cl cr hl hr
+
+/-- `a = b` evaluates both operands in order (left first!) and assigns the right cell's value
+    to the left cell (C09's subject) -/
+theorem assign_applies (n : Nat) (l r : Expr) (op : Token) (hop : op.tag = .equal)
+    (s s1 s2 : St) (cl cr : CellId)
+    (hl : evalExpr prog n l s = .ok cl s1) (hr : evalExpr prog n r s1 = .ok cr s2) :
+    evalBinary prog (n + 1) l r op s = evalAssignment l.token.pos cl cr s2 :=
+  evalBinary_assign prog n l r op hop s s1 s2 cl cr hl hr
+
+/-- any other operator token in a binary node: both operands are evaluated, then "unknown
+    operator" at the operator token (the parser never builds such a node, see
+    `table_binary_tags_covered`) -/
+theorem unknown_binary_operator (n : Nat) (l r : Expr) (op : Token)
+    (hop : isBinaryTag op.tag = false) (s s1 s2 : St) (cl cr : CellId)
+    (hl : evalExpr prog n l s = .ok cl s1) (hr : evalExpr prog n r s1 = .ok cr s2) :
+    evalBinary prog (n + 1) l r op s = throwRt op.pos "unknown operator" s2 :=
+  evalBinary_unknown prog n l r op hop s s1 s2 cl cr hl hr
+
+/-- §3.3: a runtime error (or any other abnormal end) of the left operand is the result, whatever
+    the operator; the right operand is not evaluated -/
+theorem left_operand_error (n : Nat) (l r : Expr) (op : Token) (s s1 : St) (e : Err)
+    (hl : evalExpr prog n l s = .err e s1) : evalBinary prog (n + 1) l r op s = .err e s1 :=
+  evalBinary_left_err prog n l r op s s1 e hl
+
+/-- §3.3: … and so is an abnormal end of the right operand, for every operator that evaluates
+    it unconditionally (all but `&&`, `||`, `is`); the operator is not applied -/
+theorem right_operand_error (n : Nat) (l r : Expr) (op : Token)
+    (hop : op.tag ≠ .ampAmp ∧ op.tag ≠ .pipePipe ∧ op.tag ≠ .is) (s s1 s2 : St) (cl : CellId)
+    (e : Err) (hl : evalExpr prog n l s = .ok cl s1) (hr : evalExpr prog n r s1 = .err e s2) :
+    evalBinary prog (n + 1) l r op s = .err e s2 :=
+  evalBinary_right_err prog n l r op hop s s1 s2 cl e hl hr
+
+/-- the node dispatch: a binary / unary node is evaluated by `evalBinary` / `evalUnary` with one
+    unit of fuel less -/
+theorem node_dispatch (n : Nat) (l r e : Expr) (op : Token) (p : Bool) :
+    evalExpr prog (n + 1) (.binary l r op) = evalBinary prog n l r op ∧
+    evalExpr prog (n + 1) (.unary e op p) = evalUnary prog n e op p :=
+  ⟨evalExpr_binary prog n l r op, evalExpr_unary prog n e op p⟩
+
+/-- **the case split is exhaustive**: every `Tag` falls under exactly the hypotheses of one of
+    `and_shortcircuit`/`and_rhs_evaluated`, `or_shortcircuit`/`or_rhs_evaluated`,
+    `is_spec`/`is_not_type_name`, `member_applies`, `assign_applies`, `evalBinary_compare`,
+    `evalBinary_arith`, `evalBinary_regex`, `unknown_binary_operator` -/
+theorem binary_tag_exhaustive (t : Tag) :
+    t = .ampAmp ∨ t = .pipePipe ∨ t = .is ∨ (t = .dot ∨ t = .lsquare) ∨ t = .equal ∨
+    isCompareOp t = true ∨ isArithOp t = true ∨ (t = .tilde ∨ t = .bangTilde) ∨
+    isBinaryTag t = false := by
+  cases t <;> decide
+
+/-- … and the classes are disjoint -/
+theorem binary_tag_disjoint (t : Tag) :
+    ((t == .ampAmp).toNat + (t == .pipePipe).toNat + (t == .is).toNat +
+      (t == .dot || t == .lsquare).toNat + (t == .equal).toNat + (isCompareOp t).toNat +
+      (isArithOp t).toNat + (t == .tilde || t == .bangTilde).toNat + (!isBinaryTag t).toNat) = 1 := by
+  cases t <;> decide
+
+/-- the operators the rule table of src/parser.go parses as infix `binary` are the 13 table
+    operators and `&&`, `||`; `member`, `computedMember`, `is`, `assign` nodes get `.`, `[`, `is`
+    and `=` (compound assignments are rewritten to `=` and an arithmetic node).  So no node built
+    by the parser reaches `unknown_binary_operator`. -/
+theorem table_binary_tags_covered :
+    ∀ p ∈ expectedRuleTable, p.2.inf = some .binary →
+      isTableOp p.1 = true ∨ p.1 = .ampAmp ∨ p.1 = .pipePipe := by
+  decide
+
+/-- **the parser only builds operator nodes the evaluator knows**: in a program parsed with the
+    rule table of src/parser.go, every binary node (at any depth: rule patterns, rule bodies,
+    function bodies, match arms) carries an operator of `isBinaryTag` — so one of the eight
+    non-error classes of `binary_tag_exhaustive` — and every unary node one of `! + - ++ --`
+    (compound assignments are rewritten to `=` and an arithmetic node).  Hence
+    `unknown_binary_operator` / `unknown_unary_operator` never apply to parsed text.
+    (Proved for every rule table satisfying `TblOps`: `parseProgramSrc_ops`.) -/
+theorem parsed_operators_known (src : Bytes) (p : Program)
+    (h : parseProgramSrc expectedRuleTable src = .ok p) :
+    ∀ x ∈ p.subExprs,
+      (∀ l r op, x = .binary l r op → isBinaryTag op.tag = true) ∧
+      (∀ e op q, x = .unary e op q → isUnaryTag op.tag = true) := by
+  intro x hx
+  have := Program.opKnown_of_opsB p (parse_ops src p h) x hx
+  exact ⟨fun l r op he => by subst he; exact this, fun e op q he => by subst he; exact this⟩
+
+/-- … and so does a parsed `-r` selector expression -/
+theorem parsed_selector_operators_known (sel : Bytes) (e : Expr)
+    (h : parseExpressionSrc expectedRuleTable sel = .ok e) :
+    ∀ x ∈ e.subs,
+      (∀ l r op, x = .binary l r op → isBinaryTag op.tag = true) ∧
+      (∀ e' op q, x = .unary e' op q → isUnaryTag op.tag = true) := by
+  intro x hx
+  have := Expr.opKnown_of_opsB e (parseExpr_ops sel e h) x hx
+  exact ⟨fun l r op he => by subst he; exact this, fun e' op q he => by subst he; exact this⟩
+
+/-- non-vacuity: a program that parses, with a compound assignment, a postfix and a prefix
+    operator, `is`, member access and a regex match among its 21 expression nodes -/
+example : (match parseProgramSrc expectedRuleTable b!"$.a ~ /x/ { n += -$.b[0]; n++; print !(n is number) }" with
+    | .ok p => p.subExprs.length == 21 | _ => false) = true := by decide +kernel
+
+/-- non-vacuity of `evalBinary_applies_binaryOp` and its three readings: `1 / 0` (error at the
+    operator token, offset 7), `[] < 1` (error at the left operand's token, offset 3), `1 ~ 2`
+    (error at the right operand's token, offset 9), `1 + 2` (a fresh cell holding 3); both operand
+    evaluations succeed in each -/
+example : (match evalExpr Program.empty 1 (.lit ⟨.num, 5, b!"1"⟩) default with
+    | .ok cl s1 => (match evalExpr Program.empty 1 (.lit ⟨.num, 9, b!"0"⟩) s1 with
+      | .ok cr s2 => cl == 0 && cr == 1 && s2.heap.get cr == .num F64.zero | _ => false)
+    | _ => false) = true := by decide +kernel
+example : (match evalExpr Program.empty 5
+      (.binary (.lit ⟨.num, 5, b!"1"⟩) (.lit ⟨.num, 9, b!"0"⟩) ⟨.divide, 7, []⟩) default with
+    | .err (.runtime pos msg) _ => pos == 7 && msg == "divide by zero" | _ => false) = true := by
+  decide +kernel
+example : (match evalExpr Program.empty 5
+      (.binary (.arr ⟨.lsquare, 3, []⟩ []) (.lit ⟨.num, 9, b!"1"⟩) ⟨.lessThan, 7, []⟩) default with
+    | .err (.runtime pos msg) _ => pos == 3 && msg == "cannot compare" | _ => false) = true := by
+  decide +kernel
+example : (match evalExpr Program.empty 5
+      (.binary (.lit ⟨.num, 5, b!"1"⟩) (.lit ⟨.num, 9, b!"2"⟩) ⟨.tilde, 7, []⟩) default with
+    | .err (.runtime pos _) _ => pos == 9 | _ => false) = true := by
+  decide +kernel
+example : (match evalExpr Program.empty 5
+      (.binary (.lit ⟨.num, 5, b!"1"⟩) (.lit ⟨.num, 9, b!"2"⟩) ⟨.plus, 7, []⟩) default with
+    | .ok c s => c == 2 && s.heap.cells.size == 3 &&
+        s.heap.get c == .num (F64.add F64.one (F64.add F64.one F64.one))
+    | _ => false) = true := by
+  decide +kernel
+/-- the right operand's side effect is seen by the left operand's VALUE: with `x` unset,
+    `x + (x = 5)` is 10, not 5 (Go prints 10) -/
+example : (match (evalProgram expectedRuleTable b!"BEGIN { print x + (x = 5) }" [] []).outcome,
+      (evalProgram expectedRuleTable b!"BEGIN { print x + (x = 5) }" [] []).out with
+    | .ok, out => out == b!"10\n" | _, _ => false) = true := by decide +kernel
+/-- `and_rhs_evaluated`, `or_rhs_evaluated`: `1 && 2` is `true`, `0 || ""` is `false` -/
+example : (match evalExpr Program.empty 5
+      (.binary (.lit ⟨.num, 0, b!"1"⟩) (.lit ⟨.num, 5, b!"2"⟩) ⟨.ampAmp, 2, []⟩) default,
+      evalExpr Program.empty 5
+      (.binary (.lit ⟨.num, 0, b!"0"⟩) (.lit ⟨.str, 6, b!""⟩) ⟨.pipePipe, 2, []⟩) default with
+    | .ok c1 s1, .ok c2 s2 => s1.heap.get c1 == .bool true && s2.heap.get c2 == .bool false
+    | _, _ => false) = true := by decide +kernel
+/-- `right_operand_error`: `1 + 2x` fails at the right operand (offset 5) -/
+example : (match evalExpr Program.empty 5
+      (.binary (.lit ⟨.num, 0, b!"1"⟩) (.lit ⟨.num, 5, b!"2x"⟩) ⟨.plus, 3, []⟩) default with
+    | .err (.runtime p _) _ => p == 5 | _ => false) = true := by decide +kernel
+/-- `is_not_type_name`, `unknown_binary_operator`, `left_operand_error`: hand-built nodes -/
+example : (match evalExpr Program.empty 5
+      (.binary (.lit ⟨.num, 0, b!"1"⟩) (.lit ⟨.num, 5, b!"2"⟩) ⟨.is, 2, []⟩) default,
+      evalExpr Program.empty 5
+      (.binary (.lit ⟨.num, 0, b!"1"⟩) (.lit ⟨.num, 5, b!"2"⟩) ⟨.comma, 2, []⟩) default,
+      evalExpr Program.empty 5
+      (.binary (.lit ⟨.num, 0, b!"1x"⟩) (.lit ⟨.num, 5, b!"2"⟩) ⟨.plus, 3, []⟩) default with
+    | .err (.runtime p1 m1) _, .err (.runtime p2 m2) _, .err (.runtime p3 _) _ =>
+      p1 == 5 && m1 == "expected a type name" && p2 == 2 && m2 == "unknown operator" && p3 == 0
+    | _, _, _ => false) = true := by decide +kernel
+
+/-! ### the unary operators (§3.2) -/
+
+/-- the documented result of `!v`, `+v`, `-v` (DESIGN §3.2) -/
+def specUnary (op : Tag) (v : Val) : Val :=
+  match op with
+  | .bang => .bool (!Spec.truthy v)
+  | .plus => .num (Spec.num v)
+  | _ => .num (F64.neg (Spec.num v))
+
+/-- C05, §3.2, value level: the code-shaped `unaryOp` (what `evalUnary` computes for `!`, prefix
+    `+`, prefix `-`) is the documented table, for every operand value -/
+theorem unaryOp_eq_spec (op : Tag) (v : Val) : unaryOp op v = specUnary op v := by
+  cases op <;> simp [unaryOp, specUnary, asNum_eq_spec, truthy_eq_spec]
+
+/-- C05, §3.2 row by row, for every operand KIND: `!v` -/
+theorem not_table (v : Val) :
+    unaryOp .bang v = .bool (match v with
+      | .nil _ | .unknown | .regex _ => true            -- null, unset, regex: falsy
+      | .arr _ | .obj _ | .fn _ | .native .. => false   -- array, object, function: truthy
+      | .bool b => !b
+      | .num x => x.isZero                              -- 0 and -0 (NaN is truthy)
+      | .str s _ => s.isEmpty) := by
+  cases v <;> simp [unaryOp, Val.truthy]
+
+/-- C05, §3.2 row by row, for every operand KIND: `+v` is `num(v)` -/
+theorem plus_table (v : Val) :
+    unaryOp .plus v = .num (match v with
+      | .num x => x
+      | .bool b => if b then F64.one else F64.zero
+      | .str s _ => (F64.parse s).getD F64.zero          -- numeric strings; 0 otherwise
+      | _ => F64.zero) := by                             -- null, unset, regex, array, object, function
+  cases v <;> simp [unaryOp, Val.asNum]
+  split <;> simp_all
+
+/-- C05, §3.2: `-v` is the negation of `+v` (sign bit flipped: `-null` is `-0`) -/
+theorem minus_table (v : Val) :
+    unaryOp .minus v = .num (F64.neg (match unaryOp .plus v with | .num x => x | _ => F64.zero)) := by
+  simp [unaryOp]
+
+/-- C05, §3.2 at evaluator level: **`!e`, `+e`, `-e` evaluate the operand and return a fresh cell
+    holding `unaryOp` of the operand cell's value; nothing else changes** (`newCell_spec`) -/
+theorem evalUnary_applies_unaryOp (n : Nat) (e : Expr) (op : Token) (p : Bool)
+    (hop : op.tag = .bang ∨ op.tag = .plus ∨ op.tag = .minus) (s s1 : St) (c : CellId)
+    (he : evalExpr prog n e s = .ok c s1) :
+    evalUnary prog (n + 1) e op p s = newCell (specUnary op.tag (s1.heap.get c)) s1 := by
+  rw [← unaryOp_eq_spec]; exact evalUnary_pure prog n e op p hop s s1 c he
+
+/-- C05, §3.2, `++` / `--` (prefix when `p = false`, postfix when `p = true`), in general: with
+    `x = num(v)` of the operand cell's value, a fresh cell holding `x ± 1` is ASSIGNED to the
+    operand's cell (`evalAssignment`, at the operator token's position: creation of missing
+    members and the errors of assignment are C09's subject); the result is a fresh cell holding
+    `x` (postfix) or the value of the cell assigned to (prefix) -/
+theorem evalUnary_incdec (n : Nat) (e : Expr) (op : Token) (p : Bool)
+    (hop : op.tag = .plusPlus ∨ op.tag = .minusMinus) (s s1 : St) (c : CellId)
+    (he : evalExpr prog n e s = .ok c s1) :
+    evalUnary prog (n + 1) e op p s =
+      (do let nc ← newCell (.num (stepOp op.tag (s1.heap.get c)))
+          let assigned ← evalAssignment op.pos c nc
+          if p then newCell (.num (s1.heap.get c).asNum)
+          else newCell (← readCell assigned) : EM CellId) s1 :=
+  evalUnary_step prog n e op p hop s s1 c he
+
+/-- `stepOp`: `num(v) + 1` for `++`, `num(v) - 1` for `--` -/
+theorem stepOp_spec (v : Val) :
+    stepOp .plusPlus v = F64.add (Spec.num v) F64.one ∧
+    stepOp .minusMinus v = F64.sub (Spec.num v) F64.one := by
+  simp [stepOp, asNum_eq_spec]
+
+/-- C05, §3.2, `++` / `--` on an operand that denotes an EXISTING location (a variable, or a
+    member that exists: its cell is allocated and carries no speculative reference): the
+    operand's cell is set to the number `num(v) ± 1`, the result is a fresh cell holding
+    `num(v)` (postfix) or `num(v) ± 1` (prefix); the only other change is one scratch cell. -/
+theorem evalUnary_incdec_existing (n : Nat) (e : Expr) (op : Token) (p : Bool)
+    (hop : op.tag = .plusPlus ∨ op.tag = .minusMinus) (s s1 : St) (c : CellId)
+    (he : evalExpr prog n e s = .ok c s1) (hlt : c < s1.heap.cells.size)
+    (hn : needsCreate (s1.heap.get c) = false) :
+    ∃ s', evalUnary prog (n + 1) e op p s = .ok (s1.heap.cells.size + 1) s' ∧
+      s'.heap.get c = .num (stepOp op.tag (s1.heap.get c)) ∧
+      s'.heap.get (s1.heap.cells.size + 1) =
+        .num (if p then (s1.heap.get c).asNum else stepOp op.tag (s1.heap.get c)) ∧
+      (∀ c', c' < s1.heap.cells.size → c' ≠ c → s'.heap.get c' = s1.heap.get c') ∧
+      s'.heap.cells.size = s1.heap.cells.size + 2 ∧
+      s'.heap.arrs = s1.heap.arrs ∧ s'.heap.objs = s1.heap.objs ∧ s'.frames = s1.frames ∧
+      s'.out = s1.out ∧ s'.faults = s1.faults := by
+  refine ⟨_, evalUnary_step_plain prog n e op p hop s s1 c he hlt hn, ?_, ?_, ?_, ?_, rfl, rfl, rfl,
+    rfl, rfl⟩
+  · have h0 : c < s1.heap.cells.size + 1 := Nat.lt_succ_of_lt hlt
+    have h2 : c ≠ s1.heap.cells.size + 1 := by
+      intro h; rw [h] at hlt; exact absurd hlt (by simp)
+    simp [Heap.alloc, Heap.set, Heap.get, Array.getD_eq_getD_getElem?, Array.getElem?_push, h0, h2]
+  · have hsz : (((s1.heap.alloc (.num (stepOp op.tag (s1.heap.get c)))).2).set c
+        (.num (stepOp op.tag (s1.heap.get c)))).cells.size = s1.heap.cells.size + 1 := by
+      simp [Heap.alloc, Heap.set]
+    have := Heap.get_push_new (((s1.heap.alloc (.num (stepOp op.tag (s1.heap.get c)))).2).set c
+        (.num (stepOp op.tag (s1.heap.get c))))
+        (.num (if p then (s1.heap.get c).asNum else stepOp op.tag (s1.heap.get c)))
+    rw [hsz] at this; exact this
+  · intro c' hc' hne
+    have h1 : c' ≠ s1.heap.cells.size + 1 := by
+      intro h; rw [h] at hc'; exact absurd hc' (by simp)
+    have h2 : c' ≠ s1.heap.cells.size := Nat.ne_of_lt hc'
+    have h3 : ¬ c = c' := fun h => hne h.symm
+    simp [Heap.alloc, Heap.set, Heap.get, Array.getD_eq_getD_getElem?, Array.getElem?_push, h1, h2, h3]
+  · simp [Heap.alloc, Heap.set]
+
+/-- any other operator token in a unary node: the operand is evaluated, then "unknown operator"
+    at the operator token (the parser never builds such a node: `parsed_operators_known`) -/
+theorem unknown_unary_operator (n : Nat) (e : Expr) (op : Token) (p : Bool)
+    (hop : isUnaryTag op.tag = false) (s s1 : St) (c : CellId)
+    (he : evalExpr prog n e s = .ok c s1) :
+    evalUnary prog (n + 1) e op p s = throwRt op.pos "unknown operator" s1 :=
+  evalUnary_unknown prog n e op p hop s s1 c he
+
+/-- the case split over unary operator tags is exhaustive -/
+theorem unary_tag_exhaustive (t : Tag) :
+    (t = .bang ∨ t = .plus ∨ t = .minus) ∨ (t = .plusPlus ∨ t = .minusMinus) ∨
+      isUnaryTag t = false := by
+  cases t <;> decide
+
+/-- the tags the rule table of src/parser.go parses as prefix `unary` or as `postfixOp` -/
+theorem table_unary_tags_covered :
+    ∀ p ∈ expectedRuleTable, (p.2.pre = some .unary ∨ p.2.inf = some .postfixOp) →
+      isUnaryTag p.1 = true := by
+  decide
+
+/-- non-vacuity / instances of the unary tables: every kind -/
+example : unaryOp .bang (.nil none) = .bool true ∧ unaryOp .bang .unknown = .bool true ∧
+    unaryOp .bang (.regex b!"a") = .bool true ∧ unaryOp .bang (.arr 0) = .bool false ∧
+    unaryOp .bang (.obj 0) = .bool false ∧ unaryOp .bang (.fn 0) = .bool false ∧
+    unaryOp .bang (.native .json none none) = .bool false ∧
+    unaryOp .bang (.str b!"0" none) = .bool false ∧ unaryOp .bang (.str [] none) = .bool true ∧
+    unaryOp .bang (.num F64.zero) = .bool true ∧ unaryOp .bang (.bool false) = .bool true := by
+  decide +kernel
+example : unaryOp .plus (.str b!"1" none) = .num F64.one ∧ unaryOp .plus (.str b!"x" none) = .num F64.zero ∧
+    unaryOp .plus (.bool true) = .num F64.one ∧ unaryOp .plus (.arr 3) = .num F64.zero ∧
+    unaryOp .minus (.nil none) = .num (F64.neg F64.zero) ∧ F64.neg F64.zero ≠ F64.zero ∧
+    (F64.neg F64.zero).format = b!"-0" := by
+  decide +kernel
+/-- `-"1"` is -1; `!-"1"` is false; an unknown unary operator token -/
+example : (match evalExpr Program.empty 5 (.unary (.lit ⟨.str, 2, b!"1"⟩) ⟨.minus, 0, []⟩ false) default with
+    | .ok c s => c == 1 && s.heap.get c == .num (F64.neg F64.one) | _ => false) = true := by
+  decide +kernel
+example : (match evalExpr Program.empty 5 (.unary (.lit ⟨.str, 2, b!"1"⟩) ⟨.comma, 7, []⟩ false) default with
+    | .err (.runtime pos msg) _ => pos == 7 && msg == "unknown operator" | _ => false) = true := by
+  decide +kernel
+/-- `x = 5; y = x++` leaves x = 6, y = 5; `y = ++x` gives 6; `--x` on an unset variable is -1; the
+    operand of the first is an existing location (`evalUnary_incdec_existing`) -/
+example : (match (evalProgram expectedRuleTable
+      b!"BEGIN { x = 5; y = x++; print x, y; z = ++x; print x, z; print --u, u }" [] []).outcome,
+      (evalProgram expectedRuleTable
+      b!"BEGIN { x = 5; y = x++; print x, y; z = ++x; print x, z; print --u, u }" [] []).out with
+    | .ok, out => out == b!"6 5\n7 7\n-1 -1\n" | _, _ => false) = true := by decide +kernel
+example : (match getVariable b!"x" { (default : St) with frames := [⟨b!"<root>", []⟩] } with
+    | .ok (.ok c) s1 => c < s1.heap.cells.size && !needsCreate (s1.heap.get c) | _ => false) = true := by
+  decide +kernel
 
 end Jqawk.C05
